@@ -27,6 +27,13 @@ ASSUMPTIONS = [
     "frame reached the tag damaged (the wait ends, the NAK is not heard, the next command is executed in the old "
     "sector).  A *time-out* on a damaged packet 2 is exactly what the reader observes in a fault-free passive "
     "acknowledge, so no reader can tell it from success: those cells are judged for foreign exceptions only",
+    "t2t: C16 sessions: an activation (sense) that fails - the driver raises a CommunicationError or finds no tag - "
+    "leaves the tag unselected, it answers no command until it is activated again; ContactlessFrontend is the real "
+    "class (sense() swallows the driver's CommunicationError and reports 'no target', exchange() without target "
+    "returns None)",
+    "t2t: a 3-byte length field that would cover reserved bytes (255+ byte message on a layout whose reserved range "
+    "starts at NDEF TLV offset + 2 or + 3) is outside 'reserved ranges anywhere except on the NDEF TLV's tag and "
+    "length-field bytes': such writes are executed and counted (t2t_c03_outside_quantifier_*), never judged",
 ]
 
 
@@ -67,8 +74,10 @@ def rnd_bytes(rng, n):
     return bytes(rng.getrandbits(8) for _ in range(n))
 
 
-def product_layout(rng, kind, old_len=None, nnull=None):
-    """product memory image with the TLV prefix the product documents, random previous data, random old message"""
+def product_layout(rng, kind, old_len=None, nnull=None, adjacent=None):
+    """product memory image with the TLV prefix the product documents, random previous data, random old message.
+    adjacent = 2 | 4: an additional control TLV reserves 1..8 bytes directly behind the 1-byte / 3-byte length field
+    of the stored NDEF Message TLV (see vf.ref.t2_layout.gen_layout)"""
     mem, _valid = S.product_image(kind, rng)
     p = S.PRODUCTS[kind]
     data_end = 16 + p["cc2"] * 8
@@ -81,6 +90,16 @@ def product_layout(rng, kind, old_len=None, nnull=None):
     if nnull is None:
         nnull = rng.choice([0, 0, 0, 1, 2, 3])
     prefix = prefix + bytes(nnull) if rng.random() < 0.5 else bytes(nnull) + prefix
+    if adjacent:
+        if adjacent == 4 and data_end - 16 - len(prefix) - 5 - 8 - 4 < 255:
+            adjacent = 2                        # the product cannot hold a message with a 3-byte length
+        start = 16 + len(prefix) + 5 + adjacent
+        nbytes = rng.choice([1, 1, 2, 3, 4, 8])
+        pa, bo, n = rng.choice(L.encodings(start))
+        if rng.random() < 0.5:
+            prefix += bytes([L.LOCK_T, 3, pa << 4 | bo, nbytes * 8 - rng.randrange(8), rng.choice([1, 2, 3]) << 4 | n])
+        else:
+            prefix += bytes([L.MEM_T, 3, pa << 4 | bo, nbytes, n])
     mem[16:16 + len(prefix)] = prefix
     ndef_off = 16 + len(prefix)
     mem[ndef_off:ndef_off + 2] = b"\x03\x00"
@@ -89,8 +108,15 @@ def product_layout(rng, kind, old_len=None, nnull=None):
     cap = L.ref_capacity(ndef_off, data_end, r.reserved)
     if old_len is None:
         old_len = rng.choice([0, 1, 5, 20, 100, 254, 255, 256, cap, cap - 1, rng.randrange(cap + 1)])
+    if adjacent == 2:
+        old_len = min(old_len, 254)
+    elif adjacent == 4:
+        old_len = max(old_len, 255)
     old = rnd_bytes(rng, max(0, min(old_len, cap)))
     L.place_ndef(mem, ndef_off, r.reserved, data_end, old, terminator=rng.random() < 0.75)
+    if adjacent:
+        r = L.ref_read(mem)
+        assert r.status == "ndef" and r.message == old and ndef_off + (2 if len(old) < 255 else 4) in r.reserved, (kind, r)
     return mem, old
 
 
@@ -105,17 +131,21 @@ def pick_lengths(rng, cap, lay_mem, count):
                 n = sum(1 for a in range(r.ndef_off + hdr, start) if a not in r.reserved)
                 if (hdr == 2 and n < 255) or (hdr == 4 and n >= 255):
                     special += [n, n + 1]
+    # a length whose length field would lie on reserved bytes is outside the quantifier (adjacent layouts, >= 255)
+    lim = cap
+    if cap >= 255 and L.length_field_on_reserved(r.ndef_off, r.reserved, 255):
+        lim = 254
     out = []
     for x in special:
-        if 0 <= x <= cap + 1 and x not in out:
+        if 0 <= x <= cap + 1 and x not in out and not lim < x <= cap:
             out.append(x)
     rng.shuffle(out)
     out = out[:count]
-    while len(out) < count and cap > 0:
-        x = rng.randrange(cap + 1)
+    while len(out) < count and lim > 0:
+        x = rng.randrange(lim + 1)
         if x not in out:
             out.append(x)
-        elif cap < count:
+        elif lim < count:
             break
     return out
 
@@ -131,9 +161,26 @@ RULE_C01 = ("cases = (layout, sequence of message lengths): layouts from the gen
             "in the next one, message or TLV stream continuing behind it) and NXP product images (UL, UL-C, NTAG203/21x, UL-EV1, NTAG I2C); "
             "lengths 0,1,253..256,capacity-1,capacity,capacity+1, lengths ending directly in front of a reserved "
             "range, random; every length 0..capacity for small layouts; distinct by memory image + lengths, "
-            "non-trivial when at least one write reached the read-back oracles")
+            "non-trivial when at least one write reached the read-back oracles.  Layout class 'adjacent': a control "
+            "TLV reserves a range that starts directly behind the length field of the stored NDEF TLV (offset + 2 with "
+            "a stored message < 255 bytes, offset + 4 otherwise; generic and product images); lengths whose length "
+            "field would cover reserved bytes are outside the quantifier and not generated.  Class 'failed attempt(s), "
+            "then a COMPLETED retry on the same object, then a fresh reader' (the assignment that is judged is a "
+            "fault-free `ndef.octets = x` that returns normally; what extends the quantifier is the state of the tag "
+            "object: 1 or 2 earlier attempts of `octets = new` on it ended with TagCommandError because every exchange "
+            "from command j of the attempt on was lost - command never reached the tag, or (a quarter) executed and "
+            "the answer lost): j = every command for short sequences, otherwise the WRITE that zeroes the length, the "
+            "next WRITE, two random WRITEs, the last two WRITEs, a random command; x = new (mostly), the old message, a "
+            "variation of new; new lengths 0 (the zeroed length is the whole write), 1..40, 253..256, 300, capacity; "
+            "then the reference reader and a fresh nfcpy activation must read exactly x")
 REQUIRED_C01 = ["t2t_roundtrips", "t2t_capacity_checked", "t2t_oversize_rejected", "t2t_ref_reader_checked",
-                "t2t_layout_sector-straddle"]
+                "t2t_layout_sector-straddle", "t2t_layout_adjacent-len1", "t2t_layout_adjacent-len3",
+                "t2t_layout_adjacent-product",
+                "t2t_c01_retry_cases", "t2t_c01_retry_roundtrips", "t2t_c01_retry_ref_reader_checked",
+                "t2t_c01_retry_fault_at_message_write", "t2t_c01_retry_fault_at_length_zero_write",
+                "t2t_c01_retry_fault_at_last_write", "t2t_c01_retry_empty_final_message",
+                "t2t_c01_retry_two_failed_attempts", "t2t_c01_retry_tag_unchanged_by_failed_attempts",
+                "t2t_c01_retry_with_new", "t2t_c01_retry_with_old", "t2t_c01_retry_with_variation"]
 
 
 def plan_c01(tier):
@@ -141,30 +188,42 @@ def plan_c01(tier):
         return [{"mode": "generic", "n": 1500, "nlen": 5, "max_cc2": 255},
                 {"mode": "generic", "n": 1500, "nlen": 5, "max_cc2": 255},
                 {"mode": "products", "n": 1500, "nlen": 5},
-                {"mode": "small-exhaustive", "n": 500}]
+                {"mode": "small-exhaustive", "n": 500},
+                {"mode": "retry", "n": 160, "max_cc2": 80}]
     return [{"mode": "generic", "n": 3600, "nlen": 7, "max_cc2": 255, "timeout": 3000},
             {"mode": "generic", "n": 3600, "nlen": 7, "max_cc2": 255, "timeout": 3000},
             {"mode": "products", "n": 2400, "nlen": 7, "timeout": 3000},
-            {"mode": "small-exhaustive", "n": 9000, "timeout": 3000}]
+            {"mode": "small-exhaustive", "n": 9000, "timeout": 3000},
+            {"mode": "retry", "n": 1500, "max_cc2": 255, "timeout": 3000}]
 
 
 def run_c01(desc, R, rng):
     mode = desc["mode"]
+    if mode == "retry":
+        return _run_c01_retry(desc, R, rng)
     for _i in range(desc["n"]):
         if mode == "products":
             kind = rng.choice(sorted(S.PRODUCTS))
-            mem, _old = product_layout(rng, kind)
-            tags = set()
+            if rng.random() < 0.1:
+                mem, _old = product_layout(rng, kind, adjacent=rng.choice([2, 2, 4]))
+                tags = {"adjacent-product"}
+            else:
+                mem, _old = product_layout(rng, kind)
+                tags = set()
         else:
             kind = "generic"
             if mode == "small-exhaustive":
-                lay = L.gen_layout(rng, cc2=rng.choice([6, 6, 7, 8, 12]), filler=False)
+                lay = L.gen_layout(rng, cc2=rng.choice([6, 6, 7, 8, 12]), filler=False,
+                                   adjacent=2 if rng.random() < 0.1 else None)
             elif rng.random() < 0.012:
                 # a Memory Control TLV whose reserved range starts in one sector and ends in the next one
                 lay = None
                 while lay is None:
                     lay = L.straddle_layout(rng, rng.choice([1024, 1024, 1024, 2048]),
                                             place=rng.choice(["before", "before", "behind"]))
+            elif rng.random() < 0.06:
+                # a reserved range directly behind the length field of the stored NDEF TLV
+                lay = L.gen_layout(rng, adjacent=True)
             else:
                 near_end = rng.random() < 0.06
                 lay = L.gen_layout(rng, near_end=near_end)
@@ -185,7 +244,10 @@ def run_c01(desc, R, rng):
 
 
 def replay_c01(case, R):
-    c01_case(case, R)
+    if case.get("faults") is not None:
+        c01_retry_case(case, R)
+    else:
+        c01_case(case, R)
 
 
 def c01_case(case, R):
@@ -301,6 +363,180 @@ def c01_case(case, R):
     R.max("t2t_c01_commands", dev.n_commands)
     R.case(bytes(case["mem"]) + b"|" + b",".join(b"%d" % len(w) for w in writes), nontrivial=reached)
     R.sample({"kind": kind, "cc2": model.mem[14], "ndef_off": ref0.ndef_off, "lens": [len(w) for w in writes][:8]})
+
+
+# ---------------------------------------------------------------------------------------------------------------------
+# C01 class "failed attempt(s), then a COMPLETED retry on the same object, then a fresh reader"
+C01_RETRY_LENS = [0, 0, 1, 5, 17, 40, 253, 254, 255, 256, 300]
+
+
+def _run_c01_retry(desc, R, rng):
+    for i in range(desc["n"]):
+        if i % 6 == 5:
+            kind = rng.choice(["ul", "ntag203", "ntag213", "ntag215", "ntag216", "i2c1k", "ul21"])
+            mem, _old = product_layout(rng, kind, old_len=rng.choice(C01_RETRY_LENS), adjacent=rng.choice([None, None, 2]))
+        else:
+            kind = "generic"
+            cc2 = rng.choice([6, 12, 18, 40, 48, 62, 80, 126, 160, 255])
+            cc2 = min(cc2, desc["max_cc2"]) if rng.random() < 0.9 else cc2
+            lay = L.gen_layout(rng, cc2=cc2, align=rng.randrange(4), old_len=rng.choice(C01_RETRY_LENS + [None]),
+                               filler=False, min_capacity=8)
+            mem = lay.mem
+        r = L.ref_read(mem)
+        cap = L.ref_capacity(r.ndef_off, r.data_end, r.reserved)
+        lim = 254 if cap >= 255 and L.length_field_on_reserved(r.ndef_off, r.reserved, 255) else cap
+        nl = min(rng.choice(C01_RETRY_LENS + [cap, rng.randrange(cap + 1)]), lim)
+        new = rnd_bytes(rng, nl)
+        if new == r.message:
+            continue
+        c01_retry_enumerate({"family": FAM, "kind": kind, "mem": bytes(mem), "new": new}, R, rng, desc["tier"])
+
+
+def c01_retry_enumerate(case, R, rng, tier):
+    """fault positions of the failed attempt(s) for one (image, new message), then c01_retry_case for each"""
+    new = bytes(case["new"])
+    st, v = guard(lambda: _c02_start(case))
+    ref0 = L.ref_read(bytes(case["mem"]))
+    if st == "exc" or v[2] is None or ref0.status != "ndef" or v[2].octets != ref0.message or len(new) > v[2].capacity:
+        R.count("t2t_c01_retry_setup_skipped")      # judged by the fault-free C01 cells
+        return
+    model, dev, nd = v
+    c0 = dev.n_commands
+    st, e = guard(lambda: setattr(nd, "octets", new))
+    cmds = [cmd for n, cmd, _rsp in dev.log if n >= c0]
+    writes = [i for i, c in enumerate(cmds) if c[:1] == b"\xA2"]
+    if st == "exc" or not writes:
+        R.count("t2t_c01_retry_setup_skipped")
+        return
+    ncmd = len(cmds)
+    R.max("t2t_c01_retry_commands_in_attempt", ncmd)
+    fl = lambda: "rsp_lost" if rng.random() < 0.25 else "cmd_lost"      # noqa
+    if ncmd <= 12 or tier != "quick" and ncmd <= 40:
+        sets = [[[j, fl()]] for j in range(ncmd)]
+    else:
+        js = {writes[0], writes[-1], rng.choice(writes), rng.choice(writes), rng.randrange(ncmd)}
+        if len(writes) > 2:
+            js.add(writes[1])           # the first WRITE behind the one that sets the length to zero
+            js.add(writes[-2])          # the last WRITE in front of the one that sets the new length
+        sets = [[[j, fl()]] for j in sorted(js)]
+    sets.append([[rng.choice(writes), "cmd_lost"], [rng.choice(writes), fl()]])
+    for faults in sets:
+        c = dict(case)
+        c["faults"] = faults
+        c["retry_with"] = rng.choice(["new", "new", "new", "old", "variation"])
+        c01_retry_case(c, R, writes=writes)
+
+
+def c01_retry_case(case, R, writes=None):
+    """case: mem, kind, new, faults [[j, flavour], ...] (one failed attempt of `octets = new` each; from command j of
+    the attempt on every exchange is lost until the attempt has raised), retry_with "new" | "old" | "variation" (what
+    the application assigns, fault-free, on the SAME ndef object afterwards).  Verdict: when that assignment returns
+    normally, the reference reader and a fresh nfcpy activation read exactly the octets assigned last."""
+    import nfc.tag
+    image = bytes(case["mem"])
+    new = bytes(case["new"])
+    faults = [(int(j), str(f)) for j, f in case["faults"]]
+    ref0 = L.ref_read(image)
+    if ref0.status != "ndef":
+        R.inconc("t2t c01: harness produced a layout without NDEF TLV")
+        return
+    old = ref0.message
+    how = case.get("retry_with", "new")
+    if how == "old":
+        final = old
+    elif how == "variation":        # same length, same first half, other second half
+        final = new[:len(new) // 2] + bytes(b ^ 0x3C for b in new[len(new) // 2:])
+    else:
+        final = new
+    key = image + new + repr((faults, how)).encode()
+    wit = dict(case)
+    st, v = guard(lambda: _c02_start(case))
+    if st == "exc" or v[2] is None or v[2].octets != old:
+        R.count("t2t_c01_retry_setup_skipped")
+        R.case(key, nontrivial=False)
+        return
+    model, dev, nd = v
+    sigbase = "t2t/c01/retry-after-failed-attempt/"
+    first_cmds = []
+    for idx, (j, flavour) in enumerate(faults):
+        c0 = dev.n_commands
+        hit = _arm_fault(dev, j, flavour)
+        st, e = guard(lambda: setattr(nd, "octets", new))
+        dev.script = None
+        if st == "exc" and not isinstance(e, nfc.tag.TagCommandError) and hit["n"]:
+            R.count("t2t_c01_retry_attempt_other_exception")         # judged by C16
+        if st != "exc" or not hit["n"]:
+            R.count("t2t_c01_retry_fault_not_applicable")   # the fault position lies behind the end of the attempt
+            R.case(key, nontrivial=False)
+            return
+        first_cmds.append((j, hit["cmd"] or b"", [i for i, (n, c, _r) in enumerate(dev.log[-(dev.n_commands - c0):])
+                                                  if c[:1] == b"\xA2"]))
+    unchanged = bytes(model.mem) == image
+    n0 = dev.n_commands
+    st, e = guard(lambda: setattr(nd, "octets", final))
+    R.count("t2t_c01_retry_cases")
+    if st == "exc":
+        # the property promises success for an assignment on a well-formed layout; whether that extends to a tag
+        # object that has seen a failure is left open: observed, not judged (foreign exceptions: C16)
+        R.count("t2t_c01_retry_retry_raised")
+        R.seen("t2t_c01_retry_retry_exceptions", exc_sig(e))
+        R.case(key, nontrivial=False)
+        return
+    R.count("t2t_c01_retry_completed")
+    R.count("t2t_c01_retry_with_" + how)
+    if len(faults) > 1:
+        R.count("t2t_c01_retry_two_failed_attempts")
+    j, cmd, wr = first_cmds[0]
+    if cmd[:1] == b"\xA2":
+        # which WRITE of the attempt: the one that invalidates the length / sets the new length / a message page
+        nth = wr.index(j) if j in wr else None
+        lenpage = (ref0.ndef_off + 1) // 4
+        if nth == 0 and cmd[1] == lenpage and old:
+            R.count("t2t_c01_retry_fault_at_length_zero_write")
+        elif writes is not None and j == writes[-1]:
+            R.count("t2t_c01_retry_fault_at_last_write")
+        else:
+            R.count("t2t_c01_retry_fault_at_message_write")
+    else:
+        R.count("t2t_c01_retry_fault_at_read")
+    R.count("t2t_c01_retry_%s" % faults[0][1])
+    if unchanged:
+        R.count("t2t_c01_retry_tag_unchanged_by_failed_attempts")
+    if not final:
+        R.count("t2t_c01_retry_empty_final_message")
+    if len(final) >= 255:
+        R.count("t2t_c01_retry_final_3_byte_length")
+    if dev.n_commands == n0:
+        R.count("t2t_c01_retry_completed_without_any_command")
+    where = "%d failed attempt(s) of octets=<%d bytes> (exchanges lost from command %s on, first lost command %s), then " \
+            "octets=<%s, %d bytes> on the same object returned normally" % (
+                len(faults), len(new), "/".join(str(x) for x, _f in faults), cmd[:2].hex(), how, len(final))
+    rr = L.ref_read(model.mem)
+    R.count("t2t_c01_retry_ref_reader_checked")
+    mech = "length-zero-write" if not final else "message"
+    if rr.status != "ndef" or rr.message != final:
+        R.violation(sigbase + "reference-reader/" + mech,
+                    "%s, but the reference reader sees %s (stored before: %d bytes)" % (
+                        where, rr.status if rr.status != "ndef" else "%d other bytes" % len(rr.message), len(old)), wit)
+    st, v = guard(lambda: activate(model))
+    if st == "ok" and v[2] is not None:
+        st, v = guard(lambda: (lambda nd2: None if nd2 is None else bytes(nd2.octets))(v[2].ndef))
+    elif st == "ok":
+        v = None
+    if st == "exc":
+        R.violation("t2t/c01/read-raises/" + exc_sig(v), "fresh reader after a retried write: " + exc_text(v), wit)
+    elif v is None:
+        R.violation(sigbase + "fresh-reader-none/" + mech, where + ", but a fresh activation finds no NDEF", wit)
+    elif v != final:
+        diff = [i for i in range(min(len(v), len(final))) if v[i] != final[i]]
+        R.violation(sigbase + "fresh-reader/" + mech,
+                    "%s, but a fresh activation reads %d bytes that %s" % (
+                        where, len(v), "differ from it in %d positions (first %d)" % (len(diff), diff[0]) if diff
+                        else "are not the %d assigned" % len(final)), wit)
+    else:
+        R.count("t2t_c01_retry_roundtrips")
+    R.case(key)
+    R.sample({"retry": True, "ndef_off": ref0.ndef_off, "old": len(old), "new": len(new), "faults": faults, "with": how})
 
 
 # =====================================================================================================================
@@ -655,6 +891,12 @@ def c02_case(case, R):
 # =====================================================================================================================
 RULE_C03 = ("cases = (layout, operation sequence): layouts as for C01 with emphasis on reserved ranges directly after "
             "the message / at the end of the data area, NDEF TLV in the last bytes of the data area, blank NXP products; "
+            "layout class 'adjacent' (generic tags and every NXP product image, through an additional control TLV): a "
+            "lock-control or memory-control TLV reserves a range that starts directly behind the length field of the "
+            "NDEF TLV stored on the tag - at TLV offset + 2 with a stored message of 0..254 bytes (incl. the EMPTY TLV "
+            "that format() leaves behind), at offset + 4 with 255+ bytes - i.e. on value bytes, never on T/L bytes; "
+            "writes there are limited to lengths whose length field does not cover reserved bytes (a 255+ byte write on "
+            "an 'offset + 2' layout is outside the quantifier: executed and counted, not judged); "
             "operations octets=<len 1..capacity>, format(), format(wipe=0|A5h|random); for every operation the memory "
             "is diffed byte-wise against the allowed set (NDEF TLV tag byte .. end of data area minus reserved ranges, "
             "computed by the reference reader from the image before the operation) and every WRITE command the tag "
@@ -677,7 +919,11 @@ REQUIRED_C03 = ["t2t_c03_ops_write", "t2t_c03_ops_format", "t2t_c03_ops_format_w
                 "t2t_c03_retry_fault_at_sector_select_packet_1", "t2t_c03_retry_fault_at_sector_select_packet_2",
                 "t2t_c03_retry_fault_at_write", "t2t_c03_retry_two_sector_message", "t2t_c03_retry_writes_in_sector_1",
                 "t2t_c03_retry_two_failed_attempts", "t2t_c03_retry_every_position_sequences",
-                "t2t_c03_retry_noise_at_sector_select_packet_2"]
+                "t2t_c03_retry_noise_at_sector_select_packet_2",
+                "t2t_c03_adjacent_len1_format", "t2t_c03_adjacent_len1_format_wipe", "t2t_c03_adjacent_len1_write",
+                "t2t_c03_adjacent_len3_format", "t2t_c03_adjacent_len3_format_wipe", "t2t_c03_adjacent_len3_write",
+                "t2t_c03_adjacent_to_empty_tlv_format", "t2t_c03_adjacent_to_empty_tlv_format_wipe",
+                "t2t_c03_adjacent_format_product", "t2t_c03_adjacent_format_generic"]
 
 
 def plan_c03(tier):
@@ -799,12 +1045,24 @@ def run_c03(desc, R, rng):
                 # blank product: CC present, no NDEF TLV (data area empty or a terminator only)
                 mem, _v = S.product_image(kind, rng)
                 mem[16:19] = rng.choice([b"\0\0\0", b"\xFE\0\0", b"\0\xFE\0"])
+            elif rng.random() < 0.25:
+                # a control TLV reserves the bytes directly behind the length field of the stored NDEF TLV
+                mem, _old = product_layout(rng, kind, adjacent=rng.choice([2, 2, 4]))
             else:
                 mem, _old = product_layout(rng, kind)
         else:
             kind = "generic"
             if mode == "near-end":
-                lay = L.gen_layout(rng, cc2=rng.choice([6, 7, 8, 12, 18, 31, 32, 62, 126, 127, 128, 255]), near_end=True)
+                cc2 = rng.choice([6, 7, 8, 12, 18, 31, 32, 62, 126, 127, 128, 255])
+                lay = None
+                if rng.random() < 0.08:
+                    # (not every address close to the end of every data area can be expressed by a control TLV)
+                    _st, lay = guard(lambda: L.gen_layout(rng, cc2=cc2, near_end=True, adjacent=2, attempts=16))
+                    lay = lay if _st == "ok" else None
+                if lay is None:
+                    lay = L.gen_layout(rng, cc2=cc2, near_end=True)
+            elif rng.random() < 0.15:
+                lay = L.gen_layout(rng, adjacent=True, old_len=rng.choice([None, None, 0]))
             else:
                 lay = L.gen_layout(rng)
             mem = lay.mem
@@ -812,16 +1070,24 @@ def run_c03(desc, R, rng):
         ops = []
         if r.status == "ndef":
             cap = L.ref_capacity(r.ndef_off, r.data_end, r.reserved)
+            adjacent = r.ndef_off + (2 if len(r.message) < 255 else 4) in r.reserved
             for _j in range(rng.choice([1, 2, 3])):
                 x = rng.random()
-                if x < 0.55 and cap >= 1:
+                if adjacent and cap >= 255 and x < 0.06 and L.length_field_on_reserved(r.ndef_off, r.reserved, 255):
+                    # outside the quantifier (the new length field lies on reserved bytes): observed, not judged
+                    ops.append(["write", rnd_bytes(rng, rng.choice([255, cap]))])
+                    break
+                if x < (0.35 if adjacent else 0.55) and cap >= 1:
                     ln = [n for n in pick_lengths(rng, cap, mem, 3) if 1 <= n <= cap]
-                    ln = ln[0] if ln else cap
-                    ops.append(["write", rnd_bytes(rng, ln)])
+                    if not ln:
+                        continue
+                    ops.append(["write", rnd_bytes(rng, ln[0])])
                 elif x < 0.7:
                     ops.append(["format", None])
                 else:
                     ops.append(["format", rng.choice([0, 0xA5, 0xFF, 0xFE, rng.randrange(256)])])
+            if not ops:
+                ops.append(["format", rng.choice([None, 0, 0xA5])])
         else:
             ops = [["format", rng.choice([None, 0, 0xA5])]]
         case = {"family": FAM, "kind": kind, "mem": bytes(mem), "ops": ops}
@@ -870,6 +1136,16 @@ def c03_case(case, R):
         def do():
             return _c03_do(tag, name, arg)
         opname = "write" if name == "write" else ("format" if arg is None else "format-wipe")
+        # layout class "reserved range directly behind the length field of the stored NDEF TLV" (observed here, at the
+        # oracle, from the image before the operation - whatever generated it)
+        adj = None
+        if refb.status == "ndef":
+            hdr = 2 if len(refb.message) < 255 else 4
+            if refb.ndef_off + hdr in refb.reserved and refb.ndef_off + hdr < refb.data_end:
+                adj = "adjacent_len%d" % (hdr - 1)
+        # outside the quantifier: the length field of the TLV to be written would lie on reserved bytes
+        oos = bool(name == "write" and refb.status == "ndef" and
+                   L.length_field_on_reserved(refb.ndef_off, refb.reserved, len(arg)))
         # class "failed attempt(s), then retry on the same object": every attempt is part of the operation
         failed = 0
         if faults:
@@ -956,6 +1232,12 @@ def c03_case(case, R):
             reg = sigreg(a)
             if reg:
                 bad.setdefault(reg, []).append(a)
+        if oos:
+            R.count("t2t_c03_outside_quantifier_length_field_on_reserved_bytes")
+            if bad:
+                R.count("t2t_c03_outside_quantifier_length_field_on_reserved_bytes_changed_" +
+                        "_".join(sorted(bad)).replace("-", "_"))
+            bad = {}
         for reg, addrs in sorted(bad.items()):
             R.violation("t2t/c03/%s/changed-outside/%s" % (opname_sig, reg),
                         "%s (%s, %s) changed %d byte(s) outside the NDEF message area, first at address %d "
@@ -968,7 +1250,7 @@ def c03_case(case, R):
                 R.count("t2t_c03_write_cmds_not_acknowledged_checked")
             base = sector * 1024 + page * 4
             regs = [outside(a) for a in range(base, base + 4)]
-            if all(regs):
+            if all(regs) and not oos:
                 sreg = regs[0] + desync
                 if term is not None and term // 4 * 4 == base:
                     sreg = "terminator-behind-data-area"
@@ -985,6 +1267,13 @@ def c03_case(case, R):
                 R.count("t2t_c03_reserved_adjacent_to_message")
             if refb.data_end - refb.ndef_off <= 4:
                 R.count("t2t_c03_ndef_tlv_at_end_of_data_area")
+            if adj and not oos and st == "ok" and res is not False and res != "no-ndef":
+                R.count("t2t_c03_%s_%s" % (adj, opname.replace("-", "_")))
+                R.count("t2t_c03_%s_%s" % (adj, "product" if kind in S.PRODUCTS else "generic"))
+                if not refb.message:
+                    R.count("t2t_c03_adjacent_to_empty_tlv_" + opname.replace("-", "_"))
+                if name == "format":
+                    R.count("t2t_c03_adjacent_format_%s" % ("product" if kind in S.PRODUCTS else "generic"))
         if changed or model.write_cmds:
             reached = True
     R.case(bytes(case["mem"]) + repr([(o[0], o[1] if o[0] == "format" else len(o[1]), o[2:]) for o in case["ops"]]).encode(),
@@ -1611,11 +1900,31 @@ RULE_C16 = ("cases = (personality, operation, command position p, error kind, bu
             "fault-free memory.  Multi-sector personalities (NTAG I2C 2K, generic 2 KiB tag with a message > 1 KiB): "
             "ndef read/write, has_changed, dump, explicit read/write in sector 0 -> 1 -> 0; every SECTOR SELECT packet "
             "1 / packet 2 position (and the command after it) is always enumerated, packet 2 additionally with the "
-            "'command damaged' reading of a lost command")
+            "'command damaged' reading of a lost command.  Class 'session' (the quantifier's 'each tag operation' is "
+            "taken on a tag object with a history): the application activates the tag, reads the NDEF data and performs "
+            "3 operations on the SAME tag object (first one of dump, read of a page that does not exist, ndef.octets=, "
+            "has_changed, write, format, is_present; then two from is_present, read, write, has_changed, dump, "
+            "ndef.octets=, ndef read, format, read of a missing page); fault scripts over the whole session: every "
+            "activation (ContactlessFrontend.sense) nfcpy performs itself - after a READ that was answered with NAK - "
+            "fails once with TimeoutError / TransmissionError / ProtocolError raised by the driver or with 'no tag "
+            "found'; bursts 1 and 3 at every command position (short sessions) or the first/last commands of the first "
+            "operation, the first commands of the second one and random positions; pairs burst + failing activation; "
+            "the device sits under a real ContactlessFrontend (exchange() without target returns None).  Judged for "
+            "every step by the clauses that do not depend on repetition: nothing but TagCommandError reaches the "
+            "application; a step that returns normally returns the fault-free result of that step or the documented "
+            "failure value (only when the tag memory at the start of the step equals the fault-free one), and with "
+            "the fault-free result the memory after the step is the fault-free one")
 REQUIRED_C16 = ["t2t_c16_cells", "t2t_c16_within_budget_same_result", "t2t_c16_persistent_tagcommanderror",
                 "t2t_c16_persistent_documented_result", "t2t_c16_answered_sequences_compared",
                 "t2t_c16_normal_returns_judged", "t2t_c16_sector_select_p1_cells", "t2t_c16_sector_select_p2_cells",
-                "t2t_c16_p2_lost_tag_stayed_in_sector", "t2t_c16_sector1_ops"]
+                "t2t_c16_p2_lost_tag_stayed_in_sector", "t2t_c16_sector1_ops",
+                "t2t_c16_session_cells", "t2t_c16_session_sense_fault_cells", "t2t_c16_session_exchange_fault_cells",
+                "t2t_c16_session_activation_after_nak_failed", "t2t_c16_session_activation_failed_none",
+                "t2t_c16_session_activation_failed_transmission", "t2t_c16_session_ops_after_failed_activation",
+                "t2t_c16_session_ops_after_failed_activation_tagcommanderror",
+                "t2t_c16_session_ops_after_failed_activation_documented_result",
+                "t2t_c16_session_ops_after_the_faulted_op", "t2t_c16_session_later_op_same_result_same_memory",
+                "t2t_c16_session_two_faults_hit"]
 C16_MULTI_SECTOR = ("i2c2k", "generic2k")
 
 C16_KINDS = {"timeout": ("TimeoutError", 0), "transmission": ("TransmissionError", -1), "protocol": ("ProtocolError", -2)}
@@ -1625,9 +1934,12 @@ C16_PASSWORD_NTAG = b"pwd4PK"
 
 def plan_c16(tier):
     groups = [["generic", "ul"], ["ulc", "ntag203"], ["ntag213", "ul11", "ntag216"], ["i2c2k"], ["generic2k"]]
+    sessions = [["generic", "ul", "ntag203", "generic2k"], ["ulc", "ntag213", "ul11", "i2c2k", "ntag216"]]
     if tier == "quick":
-        return [{"kinds": g, "all_positions": i < 2} for i, g in enumerate(groups)]
-    return [{"kinds": g, "all_positions": True, "timeout": 3000} for g in groups]
+        return ([{"kinds": g, "all_positions": i < 2} for i, g in enumerate(groups)] +
+                [{"mode": "sessions", "kinds": g} for g in sessions])
+    return ([{"kinds": g, "all_positions": True, "timeout": 3000} for g in groups] +
+            [{"mode": "sessions", "kinds": g, "timeout": 3000} for g in sessions])
 
 
 def _c16_ops(kind):
@@ -1643,6 +1955,8 @@ def _c16_ops(kind):
         ops = ["ndef_read", "ndef_write", "has_changed", "dump", "format", "protect"]
     if kind in C16_MULTI_SECTOR:
         ops += ["sector_read", "sector_write"]
+    else:
+        ops += ["read_beyond"]
     return ops
 
 
@@ -1685,6 +1999,8 @@ def run_c16(desc, R, rng):
     import nfc.tag.tt2
     from vf.core import vclock
     vclock.patch([nfc.tag.tt2])
+    if desc.get("mode") == "sessions":
+        return _run_c16_sessions(desc, R, rng)
     for kind in desc["kinds"]:
         for op in _c16_ops(kind):
             base = {"family": FAM, "kind": kind, "op": op, "mem": _c16_image(rng, kind, op)}
@@ -1727,6 +2043,11 @@ def replay_c16(case, R):
     import nfc.tag.tt2
     from vf.core import vclock
     vclock.patch([nfc.tag.tt2])
+    if case.get("session"):
+        ref = _c16_session_reference(case, R)
+        if ref is not None:
+            _c16_session_run(case, ref, R)
+        return
     ref = _c16_reference(case, R)
     if ref is not None:
         _c16_fault_run(case, ref, R)
@@ -1734,6 +2055,62 @@ def replay_c16(case, R):
 
 def c16_case(case, R):
     replay_c16(case, R)
+
+
+def _c16_do(case, tag, nd, op):
+    """one operation of the application on the tag object (nd: the NDEF object the application holds)"""
+    data = bytes(case.get("data", b""))
+    pw = C16_PASSWORD_ULC if case["kind"] == "ulc" else C16_PASSWORD_NTAG
+    if op == "read":
+        return tag.read(4)
+    if op == "write":
+        return tag.write(6, b"\x11\x22\x33\x44")
+    if op == "ndef_read":
+        n = tag.ndef
+        return None if n is None else n.octets
+    if op == "ndef_write":
+        nd.octets = data
+        return "written"
+    if op == "has_changed":
+        return [nd.has_changed, tag.ndef is None]
+    if op == "is_present":
+        return tag.is_present
+    if op in ("format", "format_blank"):
+        return tag.format()
+    if op == "format_wipe":
+        return tag.format(wipe=0x5A)
+    if op == "protect":
+        return tag.protect()
+    if op == "protect_pw":
+        return tag.protect(pw, read_protect=False, protect_from=4)
+    if op == "authenticate":
+        return tag.authenticate(b"")
+    if op == "signature":
+        return tag.signature
+    if op == "dump":
+        return tag.dump()
+    if op == "sector_read":
+        # explicit reads in sector 0, sector 1 and sector 0 again
+        a = tag.read(4)
+        s1 = tag.sector_select(1)
+        b1 = tag.read(0x10)
+        b2 = tag.read(0x20)
+        s0 = tag.sector_select(0)
+        c = tag.read(8)
+        return [a, s1, b1, b2, s0, c]
+    if op == "sector_write":
+        tag.write(6, b"\x11\x22\x33\x44")
+        tag.sector_select(1)
+        tag.write(0x12, b"\x55\x66\x77\x88")
+        r1 = tag.read(0x12)
+        tag.sector_select(0)
+        tag.write(7, b"\x99\xAA\xBB\xCC")
+        r0 = tag.read(6)
+        return [r1, r0]
+    if op == "read_beyond":
+        # a page behind the memory of the tag: answered with NAK, after which nfcpy activates the tag again
+        return tag.read(0xF8)
+    raise AssertionError("unknown op " + op)
 
 
 def _c16_execute(case, script_factory):
@@ -1767,57 +2144,8 @@ def _c16_execute(case, script_factory):
             nd = tag.ndef
             if nd is None:
                 return None
-        data = bytes(case.get("data", b""))
-        pw = C16_PASSWORD_ULC if case["kind"] == "ulc" else C16_PASSWORD_NTAG
-
         def run():
-            if op == "read":
-                return tag.read(4)
-            if op == "write":
-                return tag.write(6, b"\x11\x22\x33\x44")
-            if op == "ndef_read":
-                n = tag.ndef
-                return None if n is None else n.octets
-            if op == "ndef_write":
-                nd.octets = data
-                return "written"
-            if op == "has_changed":
-                return [nd.has_changed, tag.ndef is None]
-            if op == "is_present":
-                return tag.is_present
-            if op in ("format", "format_blank"):
-                return tag.format()
-            if op == "format_wipe":
-                return tag.format(wipe=0x5A)
-            if op == "protect":
-                return tag.protect()
-            if op == "protect_pw":
-                return tag.protect(pw, read_protect=False, protect_from=4)
-            if op == "authenticate":
-                return tag.authenticate(b"")
-            if op == "signature":
-                return tag.signature
-            if op == "dump":
-                return tag.dump()
-            if op == "sector_read":
-                # explicit reads in sector 0, sector 1 and sector 0 again
-                a = tag.read(4)
-                s1 = tag.sector_select(1)
-                b1 = tag.read(0x10)
-                b2 = tag.read(0x20)
-                s0 = tag.sector_select(0)
-                c = tag.read(8)
-                return [a, s1, b1, b2, s0, c]
-            if op == "sector_write":
-                tag.write(6, b"\x11\x22\x33\x44")
-                tag.sector_select(1)
-                tag.write(0x12, b"\x55\x66\x77\x88")
-                r1 = tag.read(0x12)
-                tag.sector_select(0)
-                tag.write(7, b"\x99\xAA\xBB\xCC")
-                r0 = tag.read(6)
-                return [r1, r0]
-            raise AssertionError("unknown op " + op)
+            return _c16_do(case, tag, nd, op)
         box["start"] = dev.n_commands
         dev.script = script_factory(box)
     log0 = len(dev.log)
@@ -2086,3 +2414,238 @@ def _c16_judge(case, ref, run, R, cell):
         R.violation("t2t/c16/persistent/undocumented-result/%s" % op,
                     cell + ": returned %r (fault-free: %r)" % (str(v)[:80], str(ref["outcome"][1])[:80]), case)
 
+
+
+# ---------------------------------------------------------------------------------------------------------------------
+# C16 class "session": several operations on ONE tag object, faults in one of them (or two)
+C16_SESSION_FOLLOW = ["is_present", "read", "write", "has_changed", "dump", "ndef_write", "ndef_read", "format",
+                      "read_beyond", "is_present"]
+C16_SENSE_HOW = ("timeout", "transmission", "protocol", "none")
+C16_CACHED_OPS = ("ndef_read", "ndef_write", "has_changed", "format")
+
+
+def _c16_session_execute(case, faults):
+    """the application activates the tag, reads its NDEF data and then performs case["ops"] one after the other on
+    the same tag (and ndef) object.  faults: {"at": "cmd", "p", "b", "err", "flavour"} - the b exchanges from command
+    p of the session on fail; {"at": "sense", "k", "how"} - the k-th activation (ContactlessFrontend.sense) that nfcpy
+    performs during the session fails: the driver raises the communication error `how`, or ("none") finds no tag.
+    -> dict(steps [op, outcome, mem0, mem1, log, senses], box)"""
+    import nfc.clf
+    import nfc.tag
+    from vf.sim.tagdevice import frontend
+    c = dict(case)
+    c["nak_idle"] = False
+    model = build_model(c)
+    dev = SimTagDevice(model)
+    dev.command_bound = COMMAND_BOUND
+    clf = frontend(dev)         # a real ContactlessFrontend: exchange() without a target returns None
+    target = clf.sense(nfc.clf.RemoteTarget("106A"))
+    tag = nfc.tag.activate(clf, target) if target is not None else None
+    if tag is None:
+        return None
+    nd = tag.ndef
+    if nd is None:
+        return None
+    start = dev.n_commands
+    box = {"senses": 0, "sense_hits": 0, "cmd_hits": 0, "sense_hit_after_nak": 0, "sense_after_nak": 0}
+    cmdf = [f for f in faults if f["at"] == "cmd"]
+    sensef = dict((int(f["k"]), f["how"]) for f in faults if f["at"] == "sense")
+
+    def script(n, data):
+        rel = n - start
+        for f in cmdf:
+            if f["p"] <= rel < f["p"] + f["b"]:
+                box["cmd_hits"] += 1
+                return (f["flavour"], getattr(nfc.clf, C16_KINDS[f["err"]][0]))
+        return None
+    dev.script = script
+    plain_sense = dev.sense_tta
+
+    def sense_tta(target):
+        k = box["senses"]
+        box["senses"] += 1
+        last = dev.log[-1][2] if dev.log else None
+        after_nak = isinstance(last, bytes) and len(last) == 1 and last[0] & 0xFA == 0
+        box["sense_after_nak"] += after_nak
+        how = sensef.get(k)
+        if how is None:
+            return plain_sense(target)
+        box["sense_hits"] += 1
+        box["sense_hit_after_nak"] += after_nak
+        dev.sense_calls += 1
+        model.idle = True           # the tag was not selected again: it does not answer commands
+        if how == "none":
+            return None
+        raise getattr(nfc.clf, C16_KINDS[how][0])("injected in sense")
+    dev.sense_tta = sense_tta
+    steps = []
+    for op in case["ops"]:
+        mem0, log0, s0, h0 = bytes(model.mem), len(dev.log), box["senses"], box["sense_hits"] + box["cmd_hits"]
+        lost0 = box["sense_hits"]
+        st, v = guard(lambda: _c16_do(case, tag, nd, op))
+        if st == "ok":
+            outcome = ["ret", _norm(v)]
+        elif isinstance(v, nfc.tag.TagCommandError):
+            outcome = ["exc", "TagCommandError", v.errno, type(v).__name__]
+        else:
+            outcome = ["exc", type(v).__name__, None, exc_sig(v), exc_text(v)]
+        steps.append({"op": op, "outcome": outcome, "mem0": mem0, "mem1": bytes(model.mem), "ncmd": len(dev.log) - log0,
+                      "senses": box["senses"] - s0, "hits": box["sense_hits"] + box["cmd_hits"] - h0,
+                      "reactivation_failed_before": lost0 > 0})
+    return {"steps": steps, "box": box}
+
+
+def _c16_session_reference(case, R):
+    st, ref = guard(lambda: _c16_session_execute(case, []))
+    if st == "exc" or ref is None:
+        R.inconc("t2t c16: fault-free session %s/%s failed: %r" % (case["kind"], case["ops"], ref))
+        return None
+    for stp in ref["steps"]:
+        if stp["outcome"][0] == "exc" and stp["outcome"][1] != "TagCommandError":
+            R.violation("t2t/c16/escape-without-fault/%s/%s" % (stp["op"], stp["outcome"][3]),
+                        "%s: %s in the session %s raises without any injected error: %s" % (
+                            case["kind"], stp["op"], case["ops"], stp["outcome"][4]), dict(case, faults=[]))
+            return None
+    ref["ncmd"] = sum(stp["ncmd"] for stp in ref["steps"])
+    ref["nsense"] = ref["box"]["senses"]
+    R.seen("t2t_c16_session_sequences", "%s/%s" % (case["kind"], "+".join(case["ops"])))
+    return ref
+
+
+def _run_c16_sessions(desc, R, rng):
+    quick = desc["tier"] == "quick"
+    for kind in desc["kinds"]:
+        multi = kind in C16_MULTI_SECTOR
+        if multi:
+            firsts = ["dump", "read_beyond", "has_changed"]
+        else:
+            firsts = ["dump", "read_beyond", "ndef_write", "has_changed", "write", "format", "is_present"]
+        for fi, op1 in enumerate(firsts):
+            for variant in range(1 if quick and multi else 2):
+                i = (fi * 2 + variant * 5) % (len(C16_SESSION_FOLLOW) - 1)
+                ops = [op1, C16_SESSION_FOLLOW[i], C16_SESSION_FOLLOW[i + 1]]
+                if multi:
+                    ops = [op for op in ops if op not in ("dump", "format", "ndef_write") or op == op1][:3]
+                base = {"family": FAM, "kind": kind, "session": True, "ops": ops, "mem": _c16_image(rng, kind, "session")}
+                r = L.ref_read(base["mem"])
+                cap = L.ref_capacity(r.ndef_off, r.data_end, r.reserved)
+                base["data"] = rnd_bytes(rng, min(cap, 30))
+                ref = _c16_session_reference(base, R)
+                if ref is None:
+                    continue
+                n, n1 = ref["ncmd"], ref["steps"][0]["ncmd"]
+                R.max("t2t_c16_session_commands", n)
+                fsets = []
+                # every activation nfcpy performs during the session (after a NAK) x the ways it can fail
+                for k in range(ref["nsense"]):
+                    for how in C16_SENSE_HOW:
+                        fsets.append([{"at": "sense", "k": k, "how": how}])
+                if not multi:
+                    if n <= 16 or not quick and n <= 60:
+                        positions = list(range(n))
+                    else:
+                        positions = sorted(set([0, 1, n1 - 2, n1 - 1, n1, n1 + 1, n - 1] + [rng.randrange(n) for _ in range(4)]))
+                    errs = sorted(C16_KINDS)
+                    for p in (pp for pp in positions if 0 <= pp < n):
+                        for b in (1, 3):
+                            for err in errs:
+                                fsets.append([{"at": "cmd", "p": p, "b": b, "err": err,
+                                               "flavour": "rsp_lost" if rng.random() < 0.3 else "cmd_lost"}])
+                        if not quick:
+                            fsets.append([{"at": "cmd", "p": p, "b": rng.choice([2, 4]), "err": rng.choice(errs),
+                                           "flavour": rng.choice(["cmd_lost", "rsp_lost"])}])
+                    # two faults: a burst within the retry budget, later a failing activation (and the other way round)
+                    for _x in range(2 if quick else 8):
+                        if ref["nsense"]:
+                            fsets.append([{"at": "cmd", "p": rng.randrange(n), "b": rng.choice([1, 2, 3]), "err": rng.choice(errs),
+                                           "flavour": "cmd_lost"},
+                                          {"at": "sense", "k": rng.randrange(ref["nsense"]), "how": rng.choice(C16_SENSE_HOW)}])
+                for faults in fsets:
+                    _c16_session_run(dict(base, faults=faults), ref, R)
+
+
+def _c16_session_run(case, ref, R):
+    """clauses of the statement that do not depend on how often a command is repeated, for EVERY operation of the
+    session: (a) nothing but TagCommandError reaches the application, (b) an operation that returns normally returns
+    the fault-free result of that step or its documented failure value - demanded only when the tag memory at the
+    start of the step equals the fault-free memory at the start of that step (an earlier failed step may have changed
+    the tag legitimately), and with the fault-free result the memory after the step equals the fault-free memory"""
+    faults = case["faults"]
+    st, run = guard(lambda: _c16_session_execute(case, faults))
+    if st == "exc" or run is None:
+        R.inconc("t2t c16: harness failure in session %s/%s: %r" % (case["kind"], case["ops"], run))
+        return
+    box = run["box"]
+    R.count("t2t_c16_session_cells")
+    R.case([case["kind"], case["ops"], repr(faults)], nontrivial=bool(box["sense_hits"] or box["cmd_hits"]))
+    if any(f["at"] == "sense" for f in faults):
+        R.count("t2t_c16_session_sense_fault_cells")
+        if box["sense_hit_after_nak"]:
+            R.count("t2t_c16_session_activation_after_nak_failed")
+            for f in faults:
+                if f["at"] == "sense":
+                    R.count("t2t_c16_session_activation_failed_" + f["how"])
+    if any(f["at"] == "cmd" for f in faults):
+        R.count("t2t_c16_session_exchange_fault_cells")
+    if len(faults) > 1 and box["sense_hits"] and box["cmd_hits"]:
+        R.count("t2t_c16_session_two_faults_hit")
+    fdesc = "; ".join(
+        ("activation %d of the session fails (%s)" % (f["k"], f["how"])) if f["at"] == "sense" else
+        ("%s x%d from command %d of the session (%s)" % (C16_KINDS[f["err"]][0], f["b"], f["p"], f["flavour"]))
+        for f in faults)
+    hit_before = False
+    for i, (stp, rs) in enumerate(zip(run["steps"], ref["steps"])):
+        op, out, rout = stp["op"], stp["outcome"], rs["outcome"]
+        cell = "%s session %s, %s: step %d (%s)" % (case["kind"], "+".join(case["ops"]), fdesc, i, op)
+        later = hit_before and not stp["hits"]
+        if later:
+            R.count("t2t_c16_session_ops_after_the_faulted_op")
+        if stp["reactivation_failed_before"]:
+            R.count("t2t_c16_session_ops_after_failed_activation")
+        where = "later-op" if later else "faulted-op"
+        hit_before = hit_before or bool(stp["hits"])
+        same_history = all(a["outcome"][:4] == b["outcome"][:4] for a, b in zip(run["steps"][:i], ref["steps"][:i]))
+        if out[0] == "exc" and out[1] != "TagCommandError":
+            R.violation("t2t/c16/session/escape/%s/%s/%s" % (where, op, out[3]), cell + ": " + out[4], case)
+            return          # the same state usually breaks every following step as well: one witness
+        if out[0] == "exc":
+            R.count("t2t_c16_session_op_tagcommanderror")
+            if stp["reactivation_failed_before"]:
+                R.count("t2t_c16_session_ops_after_failed_activation_tagcommanderror")
+            continue
+        # operations served (partly) from what the tag object has cached are compared only while the object has the
+        # history of the fault-free session: after `octets = x` has raised, `octets` documents the value read last
+        comparable = stp["mem0"] == rs["mem0"] and (op not in C16_CACHED_OPS or same_history)
+        v = out[1]
+        if rout[0] != "ret":
+            # the fault-free step ends with TagCommandError (a page that does not exist)
+            if _c16_failure_value(op, v):
+                R.count("t2t_c16_session_op_reports_failure")
+            elif comparable:
+                R.violation("t2t/c16/session/silent-wrong-result/%s/%s" % (where, op),
+                            cell + ": returned %r, the fault-free step raises TagCommandError(%r)" % (str(v)[:60], rout[2]), case)
+            continue
+        rv = rout[1]
+        if v != rv:
+            if op == "dump" and isinstance(v, list) and _c16_dump_verdict(v, rv) is None or _c16_failure_value(op, v):
+                R.count("t2t_c16_session_op_reports_failure")
+                if stp["reactivation_failed_before"]:
+                    R.count("t2t_c16_session_ops_after_failed_activation_documented_result")
+            elif not comparable:
+                R.count("t2t_c16_session_op_not_comparable")
+            else:
+                R.violation("t2t/c16/session/silent-wrong-result/%s/%s" % (where, op),
+                            cell + ": returned %r without any error, fault-free result %r" % (str(v)[:70], str(rv)[:70]), case)
+            continue
+        if _c16_failure_value(op, v) or not comparable:
+            R.count("t2t_c16_session_op_same_result_not_judged_further")
+            continue
+        if stp["mem1"] != rs["mem1"]:
+            diff = [a for a in range(min(len(stp["mem1"]), len(rs["mem1"]))) if stp["mem1"][a] != rs["mem1"][a]]
+            R.violation("t2t/c16/session/silent-wrong-memory/%s/%s" % (where, op),
+                        cell + ": returned the fault-free result but %d bytes of the tag memory differ (first at %d)" % (
+                            len(diff), diff[0] if diff else -1), case)
+            continue
+        R.count("t2t_c16_session_op_same_result_same_memory")
+        if later:
+            R.count("t2t_c16_session_later_op_same_result_same_memory")
